@@ -88,10 +88,13 @@ def _has_agg(node):
     return False
 
 
-def oracle(ctx, table, text, stmt):
-    conn = impl.connection([table])
+def oracle(ctx, table, text, stmt, conn=None):
+    """`conn`: a connection that has executed other statements before (names must not depend on that); the TEXT is executed"""
     try:
-        cur = conn.execute(stmt)
+        if conn is None:
+            cur = impl.connection([table]).execute(stmt)
+        else:
+            cur = conn.execute(text)
     except Exception:  # noqa: BLE001
         return
     desc = cur.description
@@ -182,6 +185,7 @@ def run(ctx):
     ledger_wildcard_layer(ctx)
     rng = ctx.rng
     table = None
+    shared = None
     n = 0
     ncases = 30000 if ctx.thorough() else 250
     for case in range(ncases):
@@ -199,6 +203,18 @@ def run(ctx):
             continue
         SqlCase([table], text, name='text').check(ctx, nontrivial=hidden > 0 or 'c' in text, meta={'hidden': hidden})
         oracle(ctx, table, text, parsed)
+        # the same statement spelled differently (spacing, case, parentheses, comments), one after the other on ONE
+        # connection: each description is named after its own text
+        if shared is None or shared[0] is not table:
+            shared = (table, impl.connection([table]))
+        for _ in range(2):
+            text2 = bqlprint.to_text(stmt, rng, redundant=15, noise=True)
+            try:
+                parsed2 = parser.parse(text2)
+            except Exception:  # noqa: BLE001
+                continue
+            oracle(ctx, table, text2, parsed2, conn=shared[1])
+            ctx.count('respelled')
         ctx.count('hidden:%d' % hidden)
         if rng.chance(1, 5):
             # the same statement as a subquery: SELECT * FROM (q) must describe q's visible targets
